@@ -49,8 +49,10 @@ CHECKS = {
         "note": ("Trusted: Lean kernel + standard axioms; patternmatcher modelled for the declared fragment (tied by suite pattern). Known finding F5."),
     },
     "C18": {
-        "text": ("Lean theorems (unbounded): for every bytewise-sorted input the repaired de-duplication returns a list in which no element is inside another "
-                 "(dedupe_prefix_free, by an invariant over the loop), kernel-checked witnesses for the unrepaired/repaired versions. Correspondence: "
+        "text": ("Lean theorems (unbounded): for every tree, request list and fuel the result of the transcribed FollowLinks is bytewise sorted and no element "
+                 "is inside another (followLinks_sorted_prefix_free, from sortBytes_sorted, dedupe_sorted and dedupe_prefix_free - an invariant over the loop); "
+                 "the result is 'everything' exactly when the root was resolved (dedupe_none_iff_root); kernel-checked witnesses for the unrepaired/repaired "
+                 "de-duplication. Correspondence: "
                  "FollowLinks over synthetic and on-disk views with relative/absolute/'..'/chained/cyclic/self/dangling links and wildcard requests vs the "
                  "transcribed resolver (0 disagreements on the generated cases); oracle: the chroot-style reference resolver (every traversed link and the "
                  "final location covered by the result, empty result when the root is reached, sorted, prefix-free); termination by a 5 s watchdog."),
